@@ -159,6 +159,7 @@ def wants (focus : String) (comp : String) : Bool :=
   | "C10" => comp == "res" || comp == "coef" || comp == "jac" || comp == "twins" || comp == "params"
   | "C18" => comp == "eps" || comp == "yw" || comp == "params" || comp == "res" || comp == "coef"
   | "C11" => comp == "res" || comp == "coef" || comp == "jac" || comp == "params" || comp == "ptwins"
+  | "C08" => false
   | "C09" => comp == "res" || comp == "coef" || comp == "params" || comp == "jac"
   | "C04state" => comp == "res" || comp == "coef" || comp == "params" || comp == "twins"
   | "C06" => comp == "res" || comp == "coef" || comp == "jac" || comp == "yw" || comp == "wtwins"
